@@ -159,20 +159,6 @@ pub fn normalise(r: &RunResult) -> RunResult {
                 n.2 = *ids.entry(n.2).or_insert(k);
             }
         }
-        // loom destroys the thread-locals of a thread (and the lazy statics of an execution) in
-        // hash-map order: the relative order of these destructor notes is not part of the fingerprint
-        let mut i = 0;
-        while i < rec.notes.len() {
-            let mut j = i;
-            let kind = rec.notes[i].0;
-            while (kind == interp::NOTE_TLS_DROP || kind == interp::NOTE_LAZY_DROP) && j < rec.notes.len() && rec.notes[j].0 == kind {
-                j += 1;
-            }
-            if j > i + 1 {
-                rec.notes[i..j].sort();
-            }
-            i = j.max(i + 1);
-        }
     }
     out
 }
